@@ -1792,6 +1792,9 @@ int ov_pcm_seek(OggVorbis_File *vf,ogg_int64_t pos){
       ogg_int64_t target=(pos-vf->pcm_offset)>>hs;
       long samples=vorbis_synthesis_pcmout(&vf->vd,NULL);
 
+      /* at half rate the decoder may sit one (odd) sample short of
+         pos; that is as close as it gets */
+      if(target<1)break;
       if(samples>target)samples=target;
       vorbis_synthesis_read(&vf->vd,samples);
       vf->pcm_offset+=samples<<hs;
